@@ -597,6 +597,7 @@ def replay(ctx: Ctx, payload: dict) -> SuiteResult:
 
 
 if __name__ == "__main__":
+    import gentie
     setup_repo_path()
     sys.exit(run_check(
         "C20", lean_modules=["Pamiq.Props.C20", "Pamiq.Lemmas.Gym"],
@@ -607,7 +608,7 @@ if __name__ == "__main__":
                            "Pamiq.Gym.delivery_once", "Pamiq.Gym.delivery_causal",
                            "Pamiq.Gym.request_honoured", "Pamiq.Gym.request_origin",
                            "Pamiq.Gym.steps_follow_script"],
-        suites=[suite_exhaustive, suite_random, suite_malformed], search=search, replay=replay,
+        suites=[gentie.suite_for("C20"), suite_exhaustive, suite_random, suite_malformed], search=search, replay=replay,
         assumptions=[
             "Gymnasium itself is replaced by the stand-in harness/stubs/gymnasium (only Env and "
             "make); real environments are assumed to follow the reset()/step() return conventions "
